@@ -4,11 +4,10 @@ from __future__ import annotations
 import ast
 from fractions import Fraction as F
 
-from ..dimeval import DimEval, DimQ, parse_unit, lift
+from ..dimeval import DimEval, DimQ, parse_unit
 from ..peval import Unsupported
-from ..source import norm, const_value, walk_no_nested
 from ..specs import dims as S2
-from .common import params, returns_of, is_name
+from .common import params
 
 CFG = "config/defaults.py::configure_units"
 CONST = "config/defaults.py::configure_constants"
